@@ -60,7 +60,7 @@ def random_command_text(rng, job, variant=0, console=True):
     n = rng.choice(names)
     if kd and rng.random() < 0.25:
         n = rng.choice(kd)
-    if r < 0.40:
+    if r < 0.36:
         return 'CAST "%s"' % n
     if r < 0.50:
         return 'USE "%s"' % n
@@ -90,6 +90,12 @@ def random_plan(rng, job, variant, n, console=True, bias_resolve=True):
     while len(lines) < n:
         c = random_command_text(rng, job, variant, console)
         lines.append(c)
+        if bias_resolve and c.startswith("USE") and rng.random() < 0.7:
+            # USE does not elapse: the announced delay stays pending for a RESOLVE of the same (or, wrongly, another) skill
+            other = 'RESOLVE "%s"' % rng.choice(skill_names(job, variant))
+            lines.append(rng.choice(["RESOLVE " + c[4:], other, "ELAPSE 0", "RESOLVE " + c[4:]]))
+            if rng.random() < 0.3:
+                lines.append(other)
         if bias_resolve and c.startswith("CAST") and rng.random() < 0.35:
             nm = c[5:]
             lines.append("RESOLVE " + nm)
